@@ -21,8 +21,21 @@ Inductive fcode := FNil | FMod (k r : Z) | FNever.
 Definition accepts (f : fcode) (m : Z) : bool :=
   match f with FNil => true | FMod k r => Z.eqb (Z.modulo m k) r | FNever => false end.
 
+(* the options of one Subscribe call, in the order in which they were passed *)
+Inductive xopt := XoFilter (f : fcode) | XoTimeout (t : Z) | XoOnFiltered | XoOnTimeout.
+Definition to_sopt (o : xopt) : sopt Z :=
+  match o with XoFilter f => OFilter (accepts f) | XoTimeout t => OTimeout t | XoOnFiltered => OOnFiltered | XoOnTimeout => OOnTimeout end.
+(* the same fold on the harness-side description (filter code instead of function); [None] = no filter *)
+Definition xcfg (opts : list xopt) : fcode * Z * bool * bool :=
+  fold_left (fun c o => match c, o with
+                        | (f, t, oF, oT), XoFilter f' => (f', t, oF, oT)
+                        | (f, t, oF, oT), XoTimeout t' => (f, t', oF, oT)
+                        | (f, t, oF, oT), XoOnFiltered => (f, t, true, oT)
+                        | (f, t, oF, oT), XoOnTimeout => (f, t, oF, true)
+                        end) opts (FNil, default_tmo, false, false).
+
 Inductive xl :=
-| XSub (cap : Z) (f : fcode) (tmo : Z) (onF onT : bool)
+| XSub (cap : Z) (opts : list xopt)
 | XPub (m : Z) (vis : list Z)
 | XEnter (p s : Z) | XDeliver (p s : Z) | XTimeout (p s : Z) | XDrop (p s : Z)
 | XRecvVal (s p m : Z) | XRecvEmpty (s : Z) | XRecvClosed (s : Z)
@@ -95,7 +108,7 @@ Definition opt_bind {A B} (o : option A) (f : A -> option B) : option B :=
 
 Definition xstep (s0 : st) (x : xl) : option st :=
   match x with
-  | XSub c f t oF oT => step s0 (Subscribe (n c) (accepts f) t oF oT)
+  | XSub c opts => step s0 (SubscribeOpts (n c) (map to_sopt opts))
   | XPub m vis =>
       let p := npub s0 in
       opt_bind (step s0 (PubBegin m)) (fun s1 =>
@@ -209,8 +222,8 @@ Definition late_timeouts (sm : summ) (lens : list Z) : bool :=
    the pair was not delivered. *)
 Definition summ_step (sm : summ) (x : xl) : summ :=
   match x with
-  | XSub c f t oF oT =>
-      mkSumm (m_subs sm ++ [(c, f, t, oF, oT)]) (m_pubs sm) (m_recv sm) (m_tout sm) (m_closed sm) (m_eof sm)
+  | XSub c opts =>
+      mkSumm (m_subs sm ++ [match xcfg opts with (f, t, oF, oT) => (c, f, t, oF, oT) end]) (m_pubs sm) (m_recv sm) (m_tout sm) (m_closed sm) (m_eof sm)
              (m_time sm) (m_lastgor sm) (m_bad sm)
   | XPub m vis =>
       (* published while subscribed: the call visits every subscriber that exists and has not been closed
@@ -277,9 +290,29 @@ Definition complete_recv (sm : summ) : bool :=
     | None => false
     end) (zrange (length (m_pubs sm))).
 
+(* own timeout, counted from the start of the delivery: the harness places XEnter no later than the delivery
+   goroutine can have started waiting (right after the Publish began, or - for a subscriber with a filter - when
+   its filter was consulted); a timeout of that pair earlier than its own timeout after that moment means the
+   budget was spent elsewhere (another subscriber's slow filter, ...) *)
+Record ot := mkOt { t_now : Z; t_tmo : list Z; t_enter : list (Z * Z * Z); t_bad : bool }.
+Definition ot_step (a : ot) (x : xl) : ot :=
+  match x with
+  | XSub _ opts => mkOt (t_now a) (t_tmo a ++ [match xcfg opts with (_, t, _, _) => t end]) (t_enter a) (t_bad a)
+  | XTick k => mkOt (t_now a + k)%Z (t_tmo a) (t_enter a) (t_bad a)
+  | XEnter p s => mkOt (t_now a) (t_tmo a) ((s, p, t_now a) :: t_enter a) (t_bad a)
+  | XTimeout p s =>
+      let ok := match find (fun e => (fst (fst e) =? s)%Z && (snd (fst e) =? p)%Z) (t_enter a), nth_error (t_tmo a) (n s) with
+                | Some (_, _, e), Some t => (e + Z.max 0 t <=? t_now a)%Z
+                | _, _ => false
+                end in
+      mkOt (t_now a) (t_tmo a) (t_enter a) (t_bad a || negb ok)
+  | _ => a
+  end.
+Definition own_timeout_ok (tr : list xl) : bool := negb (t_bad (fold_left ot_step tr (mkOt 0%Z [] [] false))).
+
 Definition mon06 (tr : list xl) (o : obs) : bool :=
   let sm := summarize tr in
-  negb (m_bad sm) && implb (o_complete o) (complete_recv sm).
+  negb (m_bad sm) && own_timeout_ok tr && implb (o_complete o) (complete_recv sm).
 
 (* OnFiltered exactly once per rejected visited pair of a subscriber with the callback, never otherwise *)
 Definition expected_cbF (sm : summ) : list (Z * Z) :=
@@ -312,7 +345,7 @@ Definition accounted (sm : summ) : bool :=
 
 Definition mon15 (tr : list xl) (o : obs) : bool :=
   let sm := summarize tr in
-  negb (m_bad sm) && negb (o_blocked o)
+  negb (m_bad sm) && negb (o_blocked o) && own_timeout_ok tr
   && implb (o_complete o)
        (list_eqb zz_eqb (zzsort (expected_cbF sm)) (zzsort (o_cbF o))
         && accounted sm && (m_lastgor sm =? 0)%Z && complete_recv sm).
@@ -342,7 +375,7 @@ Definition buffer_kept_ok (tr : list xl) : bool := negb (b_bad (fold_left bk_ste
 
 Definition mon10 (tr : list xl) (o : obs) : bool :=
   let sm := summarize tr in
-  negb (o_panic o) && negb (o_blocked o) && negb (m_bad sm) && buffer_kept_ok tr && implb (o_complete o) (complete_recv sm && (m_lastgor sm =? 0)%Z).
+  negb (o_panic o) && negb (o_blocked o) && negb (m_bad sm) && buffer_kept_ok tr && own_timeout_ok tr && implb (o_complete o) (complete_recv sm && (m_lastgor sm =? 0)%Z).
 
 Definition verdict_with (mon : list xl -> obs -> bool) (c : case) : nat :=
   match c with
